@@ -187,7 +187,7 @@ class KeySafe:
 
         # First part must be a list of pairs
         locators = _parse_key_locator(remainder)
-        if not isinstance(locators, list) and not all(isinstance(member, Pair) for member in locators):
+        if not isinstance(locators, list) or not all(isinstance(member, Pair) for member in locators):
             raise ValueError("Invalid KeySafe string, not a list of pairs")
 
         return KeySafe(locators)
